@@ -333,6 +333,32 @@ def check_profile(ctx, case, all_orders):
         ctx.fail("condense / == / + changed their operands (ballots or profile fields differ afterwards)", case, {})
 
 
+def check_writein(ctx, case):
+    """candidates= given explicitly and NOT covering every name on the ballots (write-ins): if the profile is accepted, its
+    derived fields still equal what its ballots imply, before and after condensing"""
+    from votekit import PreferenceProfile
+
+    ballots = [mk(dec(e)) for e in case["ballots"]]
+    form = case.get("form", "tuple")
+    cs = case["listed"]
+    arg = tuple(cs) if form == "tuple" else list(cs)
+    o = observe(PreferenceProfile, ballots=tuple(ballots), candidates=arg)
+    ctx.count("writein_profiles")
+    ctx.case(case, nontrivial=True)
+    if not o.ok:
+        ctx.count("writein_rejected")  # rejecting names outside the list is not ruled out by the statement
+        return
+    p = o.value
+    if not derived_ok(p):
+        ctx.fail("profile with an explicit candidate list: ballot count / total weight / cast-candidate set differ from what its "
+                 "ballots imply (a name on a ballot but not in the list)", case,
+                 {"cast": sorted(map(str, p.candidates_cast)), "implied": sorted(map(str, implied(ballots)[2]))})
+        return
+    oc = observe(p.condense_ballots)
+    if oc.ok and not derived_ok(oc.value):
+        ctx.fail("condensed profile with an explicit candidate list: derived fields differ from what its ballots imply", case, {})
+
+
 def dup_cands(ctx):
     from votekit import PreferenceProfile
 
@@ -389,6 +415,11 @@ def run(ctx):
             ctx.count("same_content_different_key_order")
         ctx.guard("profile", check_profile, ctx, {"kind": "profile", "cands": cs, "ballots": [enc(b) for b in bl]},
                   not ctx.quick)
+        voted = sorted({c for b in bl for g in b.get("r", []) for c in g} | {c for b in bl for c in b.get("s", {})})
+        if i % 3 == 0 and len(voted) >= 2:
+            listed = [c for c in cs if c != ctx.rnd.choice(voted)] + (["unvoted"] if ctx.rnd.random() < 0.5 else [])
+            ctx.guard("writein", check_writein, ctx, {"kind": "writein", "listed": listed, "form": ctx.rnd.choice(["tuple", "list"]),
+                                                      "ballots": [enc(b) for b in bl]})
 
 
 def replay(ctx, case):
@@ -396,5 +427,7 @@ def replay(ctx, case):
         check_ballot(ctx, case)
     elif case.get("kind") == "profile":
         check_profile(ctx, case, True)
+    elif case.get("kind") == "writein":
+        check_writein(ctx, case)
     else:
         dup_cands(ctx)
